@@ -285,7 +285,10 @@ func c02Check(env *core.Env, cc core.Case) core.Verdict {
 	}
 	v := core.Verdict{Status: core.Held, Features: []string{"lane:" + c.Lane}, Counts: map[string]int{}}
 	run := raGenerate(env, root, c.Main, false)
-	if run.Res.Class() == sut.ClassFault || run.Res.Class() == sut.ClassTimeout {
+	if run.Res.Class() == sut.ClassTimeout {
+		return core.Incon("watchdog hit, not judged: %s", describe(run.Res))
+	}
+	if run.Res.Class() == sut.ClassFault {
 		return core.Viol("crash", "generate crashed: %s\nprogram=%s", describe(run.Res), core.Q(c.Main))
 	}
 	if run.Res.Exit != 0 {
